@@ -22,6 +22,12 @@ package centrifuge
 // becomes TOP, virtual time passes beyond ClientChannelPositionCheckDelay, then subscriber I's real
 // periodic tick (Client.updatePresence) runs — with SharedPositionSync it goes through
 // channelMedium.CheckPosition.
+// gate=1: every broadcast of the medium (observed in channelMedium.node) first takes a token, i.e. the writer
+// goroutine is held inside the broadcast while more publications arrive (the queue's ring buffer wraps and
+// grows / shrinks with the head off-centre); `T:rel:N` hands out N tokens; the gate is opened at the end.
+// A second entry point, TestVerifC38Queue, drives publicationQueue itself:
+//   q cap=N ops=a,a,i,r,…   (a = Add publication, i = Add insufficient-state marker, r = Remove)
+//   → per op `a:cnt/cap/size` | `r:ID|I<ID>|-:cnt/cap/size`  (ids count from 1 in Add order, len(Data)=id%5+1)
 // Events with the same T form a burst; mode=each settles (synctest.Wait) after every event, mode=burst
 // only after the whole burst.  Before a burst at T everything due at ≤ T has run.
 // Output: `sub=ok|err:… bc=o,o,… s0=K:o+o+…:end …` where bc is the sequence handed by the medium to
@@ -70,13 +76,30 @@ func (b *verifC38Broker) History(_ string, _ HistoryOptions) ([]*Publication, St
 }
 
 type verifC38Spy struct {
-	n  *Node
-	mu sync.Mutex
-	bc []string
+	n    *Node
+	mu   sync.Mutex
+	bc   []string
+	gate chan struct{} // non-nil: every broadcast first takes one token (the writer is held inside the broadcast)
+	once sync.Once
+}
+
+func (s *verifC38Spy) open() {
+	if s != nil && s.gate != nil {
+		s.once.Do(func() { close(s.gate) })
+	}
 }
 
 func (s *verifC38Spy) handlePublication(ch string, sp StreamPosition, pub, prevPub *Publication, localPrevPub *Publication) error {
+	if s.gate != nil {
+		<-s.gate
+	}
 	s.mu.Lock()
+	if pub == nil {
+		// a zero-valued queue entry reached the broadcast
+		s.bc = append(s.bc, "NIL")
+		s.mu.Unlock()
+		return nil
+	}
 	if pub.Offset == math.MaxUint64 {
 		s.bc = append(s.bc, "M")
 	} else {
@@ -250,7 +273,9 @@ func verifC38Scenario(line string) (res string) {
 	var clients []*Client
 	var trs []*verifC38Transport
 	var cancels []context.CancelFunc
+	var spy *verifC38Spy
 	defer func() {
+		spy.open()
 		for _, c := range clients {
 			_ = c.close(DisconnectForceNoReconnect)
 		}
@@ -294,12 +319,14 @@ func verifC38Scenario(line string) (res string) {
 		}
 		tr.mu.Unlock()
 	}
-	var spy *verifC38Spy
 	node.mediumLock(ch).Lock()
 	medium := node.mediumShard(ch)[ch]
 	node.mediumLock(ch).Unlock()
 	if medium != nil {
 		spy = &verifC38Spy{n: node}
+		if kv["gate"] == "1" {
+			spy.gate = make(chan struct{}, 1<<20)
+		}
 		medium.mu.Lock()
 		medium.node = spy
 		medium.mu.Unlock()
@@ -343,6 +370,14 @@ func verifC38Scenario(line string) (res string) {
 			}
 			pub := &Publication{Offset: off, Data: verifC38Data(size)}
 			_ = node.HandlePublication(ch, pub, StreamPosition{Offset: off, Epoch: ep}, false, nil)
+		case "rel":
+			// let N held / future broadcasts through
+			if spy != nil && spy.gate != nil && len(parts) > 2 {
+				n, _ := strconv.Atoi(parts[2])
+				for i := 0; i < n; i++ {
+					spy.gate <- struct{}{}
+				}
+			}
 		case "insuff":
 			// reach the medium the way the code does (Node.checkPosition): through the node's map
 			node.mediumLock(ch).Lock()
@@ -376,6 +411,10 @@ func verifC38Scenario(line string) (res string) {
 		}
 	}
 	synctest.Wait()
+	if spy != nil && spy.gate != nil {
+		spy.open() // open the gate for good: everything queued drains
+		synctest.Wait()
+	}
 	endMs, _ := strconv.ParseInt(kv["end"], 10, 64)
 	if d := time.Until(base.Add(time.Duration(endMs) * time.Millisecond)); d > 0 {
 		time.Sleep(d)
@@ -406,6 +445,72 @@ func verifC38Scenario(line string) (res string) {
 		tr.mu.Unlock()
 	}
 	return sb.String()
+}
+
+func verifC38QueueLine(line string) (res string) {
+	var out []string
+	defer func() {
+		if r := recover(); r != nil {
+			res = strings.Join(append(out, fmt.Sprintf("PANIC(%v)", r)), " ")
+		}
+	}()
+	kv := verifC38KV(line)
+	capN, _ := strconv.Atoi(kv["cap"])
+	q := newPublicationQueue(capN)
+	st := func() string { return fmt.Sprintf("%d/%d/%d", q.Len(), len(q.nodes), q.Size()) }
+	id := uint64(0)
+	for _, op := range strings.Split(kv["ops"], ",") {
+		switch op {
+		case "a":
+			id++
+			q.Add(queuedPublication{Publication: queuedPub{pub: &Publication{Offset: id, Data: make([]byte, id%5+1)}}})
+			out = append(out, "a:"+st())
+		case "i":
+			id++
+			q.Add(queuedPublication{Publication: queuedPub{isInsufficientState: true, prevPub: &Publication{Offset: id}}})
+			out = append(out, "a:"+st())
+		case "r":
+			it, ok := q.Remove()
+			switch {
+			case !ok:
+				out = append(out, "r:-:"+st())
+			case it.Publication.isInsufficientState && it.Publication.prevPub != nil:
+				out = append(out, fmt.Sprintf("r:I%d:%s", it.Publication.prevPub.Offset, st()))
+			case it.Publication.pub != nil:
+				out = append(out, fmt.Sprintf("r:%d:%s", it.Publication.pub.Offset, st()))
+			default:
+				out = append(out, "r:ZERO:"+st())
+			}
+		default:
+			return "bad-op"
+		}
+	}
+	return strings.Join(out, " ")
+}
+
+func TestVerifC38Queue(t *testing.T) {
+	in, err := os.Open(os.Getenv("VERIF_OPS"))
+	if err != nil {
+		t.Skip("no VERIF_OPS")
+	}
+	defer in.Close()
+	out, err := os.Create(os.Getenv("VERIF_OUT"))
+	if err != nil {
+		t.Fatal(err)
+	}
+	defer out.Close()
+	w := bufio.NewWriter(out)
+	defer w.Flush()
+	sc := bufio.NewScanner(in)
+	sc.Buffer(make([]byte, 1<<20), 1<<26)
+	for sc.Scan() {
+		line := sc.Text()
+		if line == "" || strings.HasPrefix(line, "#") {
+			fmt.Fprintln(w, "#")
+			continue
+		}
+		fmt.Fprintln(w, verifC38QueueLine(line))
+	}
 }
 
 func TestVerifC38(t *testing.T) {
